@@ -22,7 +22,7 @@ from typing import Any, Dict, List, Optional, Tuple
 
 import z3
 
-from engine import families, internmodel as im, par, parsertables as pt, report, symnum, work
+from engine import families, internmodel as im, par, parsertables as pt, report, robust, symnum, work
 
 PID = "C17"
 MAXLEN = 64
@@ -243,7 +243,7 @@ def char_classes(t: pt.Tables) -> Tuple[List[Tuple[str, List[Tuple[int, int]], s
             inC2 = z3.Or(*[z3.And(c2 >= a, c2 <= b) for a, b in cs])
             S.push()
             S.add(inK, inK2, inC, z3.Not(inC2))       # two members of K, one inside C, one outside
-            r = str(S.check())
+            r, _ = robust.check(S, 20000)
             S.pop()
             n += 1
             if r != "unsat":
@@ -251,7 +251,7 @@ def char_classes(t: pt.Tables) -> Tuple[List[Tuple[str, List[Tuple[int, int]], s
     # coverage: every code point is in some class
     S.push()
     S.add(c >= 0, c < 0x110000, z3.Not(z3.Or(*[z3.And(c >= a, c <= b) for _, rs, _ in classes for a, b in rs])))
-    if str(S.check()) != "unsat":
+    if robust.check(S, 20000)[0] != "unsat":
         raise symnum.HarnessError("character partition does not cover all code points")
     S.pop()
     return classes, n + 1
